@@ -84,3 +84,36 @@ def extend(g, api):
     g.nat('timerIdle', f'{timer}::Timer::Idle index', lambda: timer_values().index('Idle'))
     g.nat('timerClose', f'{timer}::Timer::Close index', lambda: timer_values().index('Close'))
     g.nat('timerLossDetection', f'{timer}::Timer::LossDetection index', lambda: timer_values().index('LossDetection'))
+
+    pc = 'quinn-proto/src/connection/packet_crypto.rs'
+    def reset_extra():
+        body = api.strip_comments(api.fn_body(api.read(pc), 'unprotect_header'))
+        m = re.search(r'packet\.len\(\)\s*>=\s*RESET_TOKEN_SIZE\s*\+\s*(\d+)\s*&&\s*stateless_reset_token\.as_deref\(\)\s*==\s*Some\(&packet\[packet\.len\(\)\s*-\s*RESET_TOKEN_SIZE\.\.\]\)', body)
+        if not m:
+            raise Exception('unprotect_header: stateless reset test changed')
+        return int(m.group(1))
+    g.nat('resetMinLenExtra', f'{pc}::unprotect_header stateless reset minimum length = RESET_TOKEN_SIZE + N', reset_extra)
+    def pipeline_shape():
+        body = api.strip_comments(api.fn_body(api.read(conn), 'handle_packet'))
+        need = [r'let is_duplicate = \|n\| self\.spaces\[packet\.header\.space\(\)\]\.dedup\.insert\(n\);\s*if number\.is_some_and\(is_duplicate\)\s*\{[^}]*return;',
+                r'else if self\.state\.is_handshake\(\) && packet\.header\.is_short\(\)\s*\{[^}]*return;',
+                r'if self\.side\.is_server\(\) && token != &hs\.expected_token\s*\{[^}]*return;',
+                r'let unprotected = matches!\(\s*packet\.header,\s*Header::Retry \{ \.\. \} \| Header::VersionNegotiate \{ \.\. \}\s*\);\s*if !self\.state\.is_closed\(\) && !unprotected\s*\{',
+                r'self\.authentication_failures \+= 1;']
+        for n in need:
+            if not re.search(n, body, re.S):
+                raise Exception('handle_packet: receive pipeline shape changed: ' + n[:60])
+        i_dup = body.find('is_some_and(is_duplicate)'); i_auth = body.find('self.on_packet_authenticated('); i_proc = body.find('self.process_decrypted_packet(')
+        if not (0 < i_dup < i_auth < i_proc):
+            raise Exception('handle_packet: duplicate filter no longer precedes authentication accounting and processing')
+        first = api.strip_comments(api.fn_body(api.read(conn), 'handle_first_packet'))
+        i_ins = first.find('.dedup.insert(packet_number)'); i_p = first.find('self.process_decrypted_packet(')
+        if not (0 < i_ins < i_p):
+            raise Exception('handle_first_packet: first packet number is not recorded in the duplicate filter before processing')
+        pd = api.strip_comments(api.fn_body(api.read(conn), 'process_decrypted_packet'))
+        for n in [r'if self\.total_authed_packets > 0\s*\|\| packet\.payload\.len\(\) <= 16', r'\|\| !self\.crypto\.is_valid_retry\(',
+                  r'Header::VersionNegotiate \{ \.\. \} => \{\s*if self\.total_authed_packets > 0 \{\s*return Ok\(\(\)\);']:
+            if not re.search(n, pd, re.S):
+                raise Exception('process_decrypted_packet: Retry/VN acceptance test changed: ' + n[:50])
+        return 1
+    g.nat('receivePipelineShapeChecked', f'{conn}::handle_packet / handle_first_packet / process_decrypted_packet (order and tests of the receive pipeline as modelled in Conn/Receive.lean)', pipeline_shape)
